@@ -7,7 +7,7 @@ echo "| seeded change | check | exit | first report |"
 echo "|---|---|---|---|"
 for d in seeded/C*/; do
   n=$(basename "$d"); c=${n%%-*}
-  log=$(SKIP_TESTS=1 python3 tools/seeded.py "$n" "seeded/$n" "$c" "$c" 2>&1)
+  log=$(SKIP_TESTS=1 python3 tools/seeded.py "$n" "$PWD/seeded/$n" "$c" "$c" 2>&1)
   line=$(echo "$log" | grep "^$c exit" | head -1 | cut -c1-220 | tr '|' '/')
   echo "| $n | $c | $(echo "$line" | sed -n 's/^C[0-9]* exit \([0-9]*\).*/\1/p') | $(echo "$line" | sed 's/^C[0-9]* exit [0-9]* \/ *//') |"
 done
